@@ -211,6 +211,24 @@ def r_horizon(ctx, exact=False):
             continue
         v = leaf_value(run, "self.horizon")
         hz = run.heap.get((SELF, "_horizon"))
+        # a horizon the constructor computes itself (from the calendar window, say) is what build_solution reports and what the
+        # renderers count periods with: it must be the bound that is asserted, and an integer
+        final = run.heap.get((SELF, "horizon"))
+        if isinstance(final, tuple) and final != NONE and final != A(SELF, "horizon") and not (final[0] == "k"):
+            seen += 1
+            asserted = [e.term for e in run.emissions if e.owner == SELF and not e.loops]
+            bound_ok = any(decide_equiv(ctx, t_, le(hz, final), mode="implies")[0] for t_ in asserted if is_app(t_))
+            if not bound_ok:
+                ctx.violation("R-HORIZON", "SchedulingProblem.__init__", "a computed horizon is asserted",
+                              f"on [{describe_config(run)[:100]}] the constructor sets self.horizon = {show(norm(final))[:120]} but does not "
+                              f"assert `_horizon <= ` that value (asserted: {[show(norm(t_))[:80] for t_ in asserted]}): the horizon "
+                              f"reported with the solution can be earlier than task ends", first_line(ctx.project, "SchedulingProblem"))
+            if any(is_app(s_, "/") for s_ in subterms(final)):
+                ctx.violation("R-HORIZON", "SchedulingProblem.__init__", "a computed horizon is an integer",
+                              f"on [{describe_config(run)[:100]}] self.horizon = {show(norm(final))[:120]} is a true division: a float "
+                              f"horizon is reported (8.0) and `range(horizon + 1)` in the renderers raises TypeError",
+                              first_line(ctx.project, "SchedulingProblem"))
+            continue
         if v is not None and v[1] is None:
             continue
         seen += 1
